@@ -158,6 +158,10 @@ func (p Poly) asAtom() string {
 // ---------------------------------------------------------------------------------------------
 
 type Normer struct {
+	Root      *ssa.Function // the function whose parameters carry the role names
+	resolving map[*ssa.Parameter]bool
+	curFrom   *ssa.BasicBlock
+	phiDepth  int
 	P         *Prog
 	Bind      map[ssa.Value]string // role names for values (parameters, ...)
 	PhiChoice map[*ssa.Phi]int     // select one incoming edge of a phi (decision-table extraction)
@@ -175,6 +179,9 @@ func NewNormer(p *Prog) *Normer {
 
 // BindParams gives role names to the parameters of fn by position ("" keeps the default).
 func (n *Normer) BindParams(fn *ssa.Function, roles ...string) {
+	if n.Root == nil {
+		n.Root = fn
+	}
 	for i, r := range roles {
 		if i < len(fn.Params) && r != "" {
 			n.Bind[fn.Params[i]] = r
@@ -256,11 +263,20 @@ func (n *Normer) Norm(v ssa.Value) Poly {
 		return pAtom("const:" + x.Value.ExactString())
 	case *ssa.Parameter:
 		fn := x.Parent()
+		idx := -1
 		for i, p := range fn.Params {
 			if p == x {
-				return pAtom(fmt.Sprintf("p%d", i))
+				idx = i
 			}
 		}
+		if n.Root != nil && fn != n.Root && idx >= 0 {
+			// parameter of a helper: resolve through its call sites when they all agree
+			if r, ok := n.resolveParam(fn, idx); ok {
+				return r
+			}
+			return pAtom(fmt.Sprintf("%s.p%d", n.P.FuncName(fn), idx))
+		}
+		return pAtom(fmt.Sprintf("p%d", idx))
 	case *ssa.FreeVar:
 		if b := freeVarBinding(x); b != nil {
 			return n.Norm(b)
@@ -838,4 +854,56 @@ func refPoly(e ast.Expr) (Poly, error) {
 		return pAtom(id.Name + "(" + strings.Join(as, ",") + ")"), nil
 	}
 	return nil, fmt.Errorf("unsupported reference expression %T", e)
+}
+
+// callSitesOf: static call sites of fn in the repository (non-test code).
+func (p *Prog) callSitesOf(fn *ssa.Function) []ssa.CallInstruction {
+	if p.sites == nil {
+		p.sites = map[*ssa.Function][]ssa.CallInstruction{}
+		for _, f := range append(append([]*ssa.Function{}, p.Funcs...), p.CanaryFuncs...) {
+			eachInstr(f, func(b *ssa.BasicBlock, ins ssa.Instruction) {
+				if ci, ok := ins.(ssa.CallInstruction); ok {
+					if cal := ci.Common().StaticCallee(); cal != nil && isRepoFunc(cal) {
+						p.sites[cal] = append(p.sites[cal], ci)
+					}
+				}
+			})
+		}
+	}
+	return p.sites[fn]
+}
+
+// resolveParam: the value of parameter idx of helper fn, if every call site passes the same
+// (normal form of the) argument. Exported functions are not resolved (unknown callers).
+func (n *Normer) resolveParam(fn *ssa.Function, idx int) (Poly, bool) {
+	if fn.Parent() != nil || (fn.Object() != nil && fn.Object().Exported()) {
+		return nil, false
+	}
+	p := fn.Params[idx]
+	if n.resolving == nil {
+		n.resolving = map[*ssa.Parameter]bool{}
+	}
+	if n.resolving[p] || len(n.resolving) > 6 {
+		return nil, false
+	}
+	n.resolving[p] = true
+	defer delete(n.resolving, p)
+	sites := n.P.callSitesOf(fn)
+	if len(sites) == 0 {
+		return nil, false
+	}
+	var agreed Poly
+	for i, s := range sites {
+		args := s.Common().Args
+		if idx >= len(args) {
+			return nil, false
+		}
+		v := n.Norm(args[idx])
+		if i == 0 {
+			agreed = v
+		} else if !pEqual(agreed, v) {
+			return nil, false
+		}
+	}
+	return agreed, true
 }
